@@ -20,6 +20,8 @@ type Verdict struct {
 // byte) and each COUNT with one COUNT reply.
 type scriptedChild struct {
 	h       *vsched.H
+	mode    int // index into c09Verdicts, or C09RejectFirst / C09AcceptFirst
+	seen    int // EVENTs answered so far
 	verdict Verdict
 	count   uint64
 	Replied map[string][]int64 // event id -> logical times at which this child's replies were taken
@@ -38,7 +40,9 @@ func (c *scriptedChild) ServeNostr(ctx context.Context, send chan<- mocrelay.Ser
 			var reply mocrelay.ServerMsg
 			switch m := m.(type) {
 			case *mocrelay.ClientEventMsg:
-				reply = mocrelay.NewServerOKMsg(m.Event.ID, c.verdict.Accept, c.verdict.Prefix, c.verdict.Msg)
+				v := c09VerdictAt(c.mode, c.seen)
+				c.seen++
+				reply = mocrelay.NewServerOKMsg(m.Event.ID, v.Accept, v.Prefix, v.Msg)
 			case *mocrelay.ClientCountMsg:
 				reply = mocrelay.NewServerCountMsg(m.SubscriptionID, c.count, nil)
 			default:
@@ -63,6 +67,30 @@ var c09Verdicts = []Verdict{
 	{Accept: false, Prefix: "", Msg: "plain"},
 }
 
+// Verdicts that depend on the request: a child that rejects only its first EVENT (a rate limiter)
+// and one that accepts only its first EVENT (a store answering "duplicate" afterwards).
+const (
+	C09RejectFirst  = 4
+	C09AcceptFirst  = 5
+	C09VerdictModes = 6
+)
+
+func c09VerdictAt(mode, k int) Verdict {
+	switch mode {
+	case C09RejectFirst:
+		if k == 0 {
+			return Verdict{Accept: false, Prefix: mocrelay.MachineReadablePrefixRateLimited, Msg: "r"}
+		}
+		return Verdict{Accept: true}
+	case C09AcceptFirst:
+		if k == 0 {
+			return Verdict{Accept: true}
+		}
+		return Verdict{Accept: false, Prefix: mocrelay.MachineReadablePrefixDuplicate, Msg: "d"}
+	}
+	return c09Verdicts[mode]
+}
+
 var c09Counts = []uint64{0, 1, 7}
 
 // C09 scripts (writer does not wait for replies unless stated):
@@ -78,25 +106,28 @@ func MergeOKCount(h *vsched.H) {
 	n := h.Param("n", 2)
 	var hs []mocrelay.Handler
 	var kids []*scriptedChild
+	var modes []int
 	var verdicts []Verdict
 	var counts []uint64
 	for i := 0; i < n; i++ {
-		v := c09Verdicts[h.Param(fmt.Sprintf("v%d", i), 0)]
+		mode := h.Param(fmt.Sprintf("v%d", i), 0)
+		modes = append(modes, mode)
+		v := c09VerdictAt(mode, 0)
 		k := c09Counts[h.Param(fmt.Sprintf("k%d", i), 0)]
 		verdicts = append(verdicts, v)
 		counts = append(counts, k)
-		kid := &scriptedChild{h: h, verdict: v, count: k, Replied: map[string][]int64{}}
+		kid := &scriptedChild{h: h, mode: mode, verdict: v, count: k, Replied: map[string][]int64{}}
 		kids = append(kids, kid)
 		hs = append(hs, kid)
 	}
-	rejecting := 0
-	for _, v := range verdicts {
-		if !v.Accept {
-			rejecting++
+	canReject := 0
+	for _, m := range modes {
+		if m != 0 {
+			canReject++
 		}
 	}
 	for i, k := range kids {
-		k.stamp = rejecting >= 2 && !verdicts[i].Accept
+		k.stamp = canReject >= 2 && modes[i] != 0
 	}
 	merged := mocrelay.NewMergeHandler(hs...)
 	c := NewConn(h, "c", context.Background(), merged)
@@ -148,14 +179,6 @@ func MergeOKCount(h *vsched.H) {
 			wantCount[m.SubscriptionID]++
 		}
 	}
-	allAccept := true
-	var reasons []string
-	for _, v := range verdicts {
-		if !v.Accept {
-			allAccept = false
-			reasons = append(reasons, v.Prefix+v.Msg)
-		}
-	}
 	maxCount := uint64(0)
 	for _, k := range counts {
 		if k > maxCount {
@@ -168,26 +191,57 @@ func MergeOKCount(h *vsched.H) {
 		switch m := g.Msg.(type) {
 		case *mocrelay.ServerOKMsg:
 			gotOK[m.EventID]++
-			if m.Accepted != allAccept {
-				h.Failf(fmt.Sprintf("C09/OK verdict: accepted=%v but all-children-accepted=%v", m.Accepted, allAccept), "verdicts %+v; got %s", verdicts, c.GotString())
+			// the n-th OK for an id answers the n-th EVENT with that id (requests are served in order)
+			k := -1
+			seenID := 0
+			evIdx := 0
+			for _, sm := range c.Sent {
+				if em, is := sm.Msg.(*mocrelay.ClientEventMsg); is {
+					if em.Event.ID == m.EventID {
+						seenID++
+						if seenID == gotOK[m.EventID] {
+							k = evIdx
+						}
+					}
+					evIdx++
+				}
 			}
-			if !allAccept {
+			if k < 0 {
+				continue // an OK too many: reported below
+			}
+			allAccept := true
+			rejecting := 0
+			var reasons []string
+			var vk []Verdict
+			for i := range kids {
+				v := c09VerdictAt(modes[i], k)
+				vk = append(vk, v)
+				if !v.Accept {
+					allAccept = false
+					rejecting++
+					reasons = append(reasons, v.Prefix+v.Msg)
+				}
+			}
+			if m.Accepted != allAccept {
+				h.Failf(fmt.Sprintf("C09/OK verdict: accepted=%v but all-children-accepted=%v", m.Accepted, allAccept), "request #%d, children's verdicts for it %+v; got %s", k, vk, c.GotString())
+			}
+			if !allAccept && !m.Accepted {
 				ok := false
-				for _, r := range reasons { // lowest index or earliest reply: any rejecting child's full text may lead
+				for _, r := range reasons {
 					if strings.HasPrefix(m.Message(), r) {
 						ok = true
 					}
 				}
 				if !ok {
-					h.Failf("C09/OK reason: rejection text does not begin with a rejecting child's reason", "verdicts %+v; got %q", verdicts, m.Message())
+					h.Failf("C09/OK reason: rejection text does not begin with a rejecting child's reason", "request #%d, verdicts %+v; got %q", k, vk, m.Message())
 				}
 				// "the first rejecting child": the statement does not say whether first by position or
 				// first to reply, so both are accepted — but nothing else. Decidable when the id is in
 				// flight once (each child has replied exactly once for it).
-				if wantOK[m.EventID] == 1 {
+				if wantOK[m.EventID] == 1 && rejecting >= 2 {
 					low, early := -1, -1
 					var earlyAt int64
-					for i, v := range verdicts {
+					for i, v := range vk {
 						if v.Accept || len(kids[i].Replied[m.EventID]) != 1 {
 							continue
 						}
@@ -198,11 +252,11 @@ func MergeOKCount(h *vsched.H) {
 							early, earlyAt = i, at
 						}
 					}
-					if low >= 0 && rejecting >= 2 {
-						rl := verdicts[low].Prefix + verdicts[low].Msg
-						re := verdicts[early].Prefix + verdicts[early].Msg
+					if low >= 0 {
+						rl := vk[low].Prefix + vk[low].Msg
+						re := vk[early].Prefix + vk[early].Msg
 						if !strings.HasPrefix(m.Message(), rl) && !strings.HasPrefix(m.Message(), re) {
-							h.Failf("C09/OK reason: rejection text begins neither with the reason of the first rejecting child by position nor of the first to reply", "verdicts %+v; first by position: child %d, first to reply: child %d; got %q", verdicts, low, early, m.Message())
+							h.Failf("C09/OK reason: rejection text begins neither with the reason of the first rejecting child by position nor of the first to reply", "verdicts %+v; first by position: child %d, first to reply: child %d; got %q", vk, low, early, m.Message())
 						}
 					}
 				}
